@@ -206,9 +206,11 @@ def limits_family():
             out.append("<p>" + ("<%s>" % f) * n + "x</p>y</%s>z" % nm)
         out.append("<table>" * n + "x" + "</table>" * n + "y")
         # Noah's Ark counts only after the last marker: identical formatting elements on both sides of a marker
-        for mk in ("<table><tr><td>", "<applet>", "<marquee>", "<object>", "<table><caption>"):
+        for mk, close in (("<table><tr><td>", "</table>"), ("<applet>", "</applet>"), ("<marquee>", "</marquee>"), ("<object>", "</object>"),
+                          ("<table><caption>", "</table>")):
             out.append("<p>" + "<b>" * n + mk + "<b>x</b>" + "</p>z")
-            out.append("<p>" + "<b>" * n + mk + "<b><b><b><b>x" + "</p>z</b>w")
+            out.append("<p>" + "<b>" * n + mk + "<b>x</b>" + close + "</p>z")          # leave the marker's scope, then reconstruct
+            out.append("<p>" + "<b>" * n + mk + "<b><b><b><b>x" + close + "</p>z</b>w")
         out.append("<ul><li>" * n + "x</li>y")
         out.append("<dl><dd>" * n + "<dt>x")
         out.append("<ruby>" + "<rb><rt>" * n + "x</ruby>y")
